@@ -119,7 +119,7 @@ def run(tier, seed):
     c.cov["stages"]["RUN:cases"]["coverage"] = cov
     if cov["accepted_by_worst"].get("ok", 0) < 300 or cov["rejected_by_worst"].get("foreign", 0) < 100 \
             or cov["rejected_by_worst"].get("missing", 0) < 30 or cov["digest_list_rejected"] < 100:
-        raise vlib.ToolError(f"vacuity: {cov}")
+        c.defer(f"vacuity: {cov}")
     c.sample({k: v for k, v in recs[0].items() if k != "pred"})
     c.sample([{k: v for k, v in x.items() if k != "pred"} for x in acc if x["worst"] == "misplaced"][:1])
     c.validate("db", "DbVerifyTrace", "DbVerifyTrace.cfg", t1, name="cases")
